@@ -1350,3 +1350,28 @@ func ens_WriteC2S2(w io.Writer, s1c1 []byte, err error) bool {
 func ens_WriteC2S2_err(err error) bool { return spec_errKeepsRoot(err) }
 
 //@ assigns (*Handshake).WriteC2S2 ghost.wr(w), ghost.ioerr
+
+// ---------- C03: the typed wait decodes EVERY message it reads ----------
+// (so a _result that passes by while something else is awaited still consumes its outstanding request, and the packet
+// returned is the first of the requested type among ALL arriving messages, whatever message type carries it).
+// Reflection is modelled opaquely: which packets count as "of the requested type" is left open; that each message read
+// is handed to DecodeMessage before the next one is read is what this contract pins down.
+
+func ghost_calls(callee string) int { panic("ghost") }
+
+//@ count-calls (*Protocol).ExpectPacket ReadMessage DecodeMessage
+//@ requires (*Protocol).ExpectPacket
+func req_ExpectPacket(v *Protocol, ppkt interface{}) bool { return ppkt != nil && spec_wfReader(v) && req_parseAMF(v) }
+
+//@ invariant (*Protocol).ExpectPacket 0
+func inv_ExpectPacket(v *Protocol) bool {
+	return spec_wfReader(v) && req_parseAMF(v) && ghost_calls("ReadMessage") == ghost_calls("DecodeMessage")
+}
+
+//@ ensures (*Protocol).ExpectPacket C03.expect.every-message-decoded
+func ens_ExpectPacket(err error) bool {
+	return err != nil || ghost_calls("ReadMessage") == ghost_calls("DecodeMessage")
+}
+
+// (what ExpectPacket may modify is not specified: it hands the decoded packet to the caller through reflection)
+//@ noframe (*Protocol).ExpectPacket
